@@ -46,6 +46,8 @@ struct ConvOut
   std::vector<float> vals;         // the same values, flat (BinStore order)
   std::vector<float> back;         // bins after make_fan_data_remove_gaps + set_fan_data_add_gaps into fresh projection data
   FanProjData fan;
+  bool has_signed = false; // second pass (case key "signed_data"): the same bins with negative values and exact zeros
+  FanProjData fan_signed;
 };
 
 Result
@@ -223,6 +225,72 @@ check_conversion(Ctx& X, ConvOut& out)
                      " vs direct sum ", want);
           }
     }
+  // ---- second pass: data with NEGATIVE values and EXACT ZEROS (projection data are any floats: precorrected data, differences) ----
+  // the value of a bin is +-(its distinct value of the first pass) or 0; every clause of the first pass is decided again
+  if (X.c.value("signed_data", 0) != 0)
+    {
+      stats().cls("conversion also on data with negative values and exact zeros");
+      const uint64_t sseed = X.c["seed_data"].get<uint64_t>() ^ 0x51e9edULL;
+      std::vector<float> sv(vals);
+      long nz = 0, nn = 0;
+      for (long i = 0; i < N; ++i)
+        {
+          const double h = c20::hreal(sseed, uint64_t(i), 0., 1.);
+          if (h < 0.04)
+            sv[std::size_t(i)] = 0.F, ++nz;
+          else if (h < 0.45)
+            sv[std::size_t(i)] = -sv[std::size_t(i)], ++nn;
+        }
+      stats().count("signed pass: bins exactly 0", nz);
+      stats().count("signed pass: bins negative", nn);
+      ProjDataInMemory pdS(exam, X.pdi_sptr);
+      store.to_projdata(pdS, sv);
+      FanProjData fanS;
+      make_fan_data_remove_gaps(fanS, pdS);
+      for (const Entry& e : X.dom)
+        {
+          const DetectionPositionPair<> dp(DetectionPosition<>(B.orig_tr(e.a), B.orig_ax(e.ra)), DetectionPosition<>(B.orig_tr(e.b), B.orig_ax(e.rb)));
+          Bin bin;
+          float want = 0.F;
+          if (p.get_bin_for_det_pos_pair(bin, dp) == Succeeded::yes
+              && store.in_range(bin.segment_num(), bin.axial_pos_num(), bin.view_num(), bin.tangential_pos_num()) && std::abs(bin.tangential_pos_num()) <= F.half_fan)
+            want = sv[std::size_t(store.index(bin.segment_num(), bin.axial_pos_num(), bin.view_num(), bin.tangential_pos_num()))];
+          const float got = fanS(e.ra, e.a, e.rb, e.b);
+          VF_CHECK(got == want, "make_fan_data_remove_gaps (data with negative values and zeros): entry (ra=", e.ra, ",a=", e.a, ",rb=", e.rb, ",b=", e.b, ") = ", got,
+                   " but its bin (seg ", bin.segment_num(), ", ax ", bin.axial_pos_num(), ", view ", bin.view_num(), ", tang ", bin.tangential_pos_num(), ") holds ", want);
+          VF_CHECK(fanS(e.rb, e.b, e.ra, e.a) == got, "fan data (negative values and zeros) not symmetric at (", e.ra, ",", e.a, ",", e.rb, ",", e.b, ")");
+        }
+      ProjDataInMemory pdS2(exam, X.pdi_sptr);
+      pdS2.fill(-7.F);
+      set_fan_data_add_gaps(pdS2, fanS, gap_value);
+      const std::vector<float> backS = store.from_projdata(pdS2);
+      for (int s = p.get_min_segment_num(); s <= p.get_max_segment_num(); ++s)
+        for (int ax = p.get_min_axial_pos_num(s); ax <= p.get_max_axial_pos_num(s); ++ax)
+          for (int v = p.get_min_view_num(); v <= p.get_max_view_num(); ++v)
+            for (int t = p.get_min_tangential_pos_num(); t <= p.get_max_tangential_pos_num(); ++t)
+              {
+                const std::size_t idx = std::size_t(store.index(s, ax, v, t));
+                DetectionPositionPair<> dp;
+                p.get_det_pos_pair_for_bin(dp, Bin(s, v, ax, t));
+                const bool gap = B.virt_tr(dp.pos1().tangential_coord()) || B.virt_tr(dp.pos2().tangential_coord()) || B.virt_ax(dp.pos1().axial_coord())
+                                 || B.virt_ax(dp.pos2().axial_coord());
+                if (std::abs(t) > F.half_fan)
+                  {
+                    // finding F1 (see the first pass)
+                    if (no_exclude && !gap)
+                      VF_CHECK(backS[idx] == sv[idx], "round trip loses bin (seg ", s, ", ax ", ax, ", view ", v, ", tang ", t, ") outside the symmetric fan");
+                    continue;
+                  }
+                if (gap)
+                  VF_CHECK(backS[idx] == gap_value, "gap bin (seg ", s, ", ax ", ax, ", view ", v, ", tang ", t, ") holds ", backS[idx], " instead of gap_value ", gap_value,
+                           " (data with negative values and zeros)");
+                else
+                  VF_CHECK(backS[idx] == sv[idx], "round trip changes bin (seg ", s, ", ax ", ax, ", view ", v, ", tang ", t, ") of data with negative values and zeros: ",
+                           backS[idx], " instead of ", sv[idx]);
+              }
+      out.has_signed = true;
+      out.fan_signed = fanS;
+    }
   out.fan = fan;
   out.vals = vals;
   out.back = back;
@@ -342,9 +410,45 @@ check(const json& c)
     for (std::size_t i = 0; i < X.dom.size(); ++i)
       fac[i] = double(eff[X.dom[i].ra][X.dom[i].a]) * double(eff[X.dom[i].rb][X.dom[i].b]);
     Result r = check_apply("apply_efficiencies", X, fan0, base, fac, [&](FanProjData& f, bool ap) { apply_efficiencies(f, eff, ap); });
+    if (r.kind == Result::PASS && conv.has_signed)
+      r = check_apply("apply_efficiencies [negative values and zeros]", X, conv.fan_signed, snapshot(conv.fan_signed, X.dom), fac,
+                      [&](FanProjData& f, bool ap) { apply_efficiencies(f, eff, ap); });
     if (r.kind != Result::PASS)
       return r;
   }
+
+  // ---- (2a') dead detectors: efficiencies EXACTLY 0 (what iterate_efficiencies writes for a detector without counts) ----------------
+  // "multiplies each detector-pair entry by the product of the factors of its two detectors": the product is 0 for every pair of a
+  // dead detector, unchanged elsewhere.  apply=true only (un-applying would divide by 0: outside the statement).
+  if (const int n_dead = c.value("dead_eff", 0))
+    {
+      stats().cls("apply_efficiencies with dead detectors (efficiency exactly 0)");
+      DetectorEfficiencies eff0 = eff;
+      for (int k = 0; k < n_dead; ++k)
+        {
+          const long di = long(c20::hreal(seed_par ^ 0xdeadeffULL, uint64_t(k), 0., 1.) * double(nrph) * double(nph)) % (long(nrph) * nph);
+          eff0[int(di / nph)][int(di % nph)] = 0.F;
+        }
+      FanProjData f = fan0;
+      apply_efficiencies(f, eff0, true);
+      const std::vector<double> got = snapshot(f, X.dom);
+      long n0 = 0;
+      for (std::size_t i = 0; i < X.dom.size(); ++i)
+        {
+          const Entry& e = X.dom[i];
+          const double fac = double(eff0[e.ra][e.a]) * double(eff0[e.rb][e.b]), want = base[i] * fac;
+          if (fac == 0.)
+            {
+              ++n0;
+              VF_CHECK(got[i] == 0., "apply_efficiencies: entry (ra=", e.ra, ",a=", e.a, ",rb=", e.rb, ",b=", e.b, ") of a detector with efficiency 0 holds ", got[i],
+                       " (data value ", base[i], ")");
+            }
+          else
+            VF_CHECK(std::fabs(got[i] - want) <= TOL_APPLY * std::fabs(want), "apply_efficiencies (with dead detectors elsewhere): entry (ra=", e.ra, ",a=", e.a,
+                     ",rb=", e.rb, ",b=", e.b, ") = ", got[i], " expected ", base[i], " x ", fac, " = ", want);
+        }
+      stats().count("entries of dead detectors (product 0 expected)", n0);
+    }
 
   // ---- (2b) block factors ----------------------------------------------------------------------------------------
   // BlockData3D as allocate()/ML_estimate build it: FanProjData(nb_ax, nb_tr, nb_ax-1, nb_tr-1): needs an even number of
@@ -375,6 +479,9 @@ check(const json& c)
                         : double(c20::factor_value(M, seed_par ^ 0xb10cULL, c20::pair_key(e.ra / B.p_ax, e.a / B.p_tr, e.rb / B.p_ax, e.b / B.p_tr, B.nb_tr)));
         }
       Result r = check_apply("apply_block_norm", X, fan0, base, bfac, [&](FanProjData& f, bool ap) { apply_block_norm(f, bd, ap); });
+      if (r.kind == Result::PASS && conv.has_signed)
+        r = check_apply("apply_block_norm [negative values and zeros]", X, conv.fan_signed, snapshot(conv.fan_signed, X.dom), bfac,
+                        [&](FanProjData& f, bool ap) { apply_block_norm(f, bd, ap); });
       if (r.kind != Result::PASS)
         return r;
     }
@@ -427,6 +534,9 @@ check(const json& c)
       for (std::size_t i = 0; i < X.dom.size(); ++i)
         gfac[i] = double(gval(X.dom[i].ra, X.dom[i].a, X.dom[i].rb, X.dom[i].b));
       Result r = check_apply("apply_geo_norm", X, fan0, base, gfac, [&](FanProjData& f, bool ap) { apply_geo_norm(f, gd, ap); });
+      if (r.kind == Result::PASS && conv.has_signed)
+        r = check_apply("apply_geo_norm [negative values and zeros]", X, conv.fan_signed, snapshot(conv.fan_signed, X.dom), gfac,
+                        [&](FanProjData& f, bool ap) { apply_geo_norm(f, gd, ap); });
       if (r.kind != Result::PASS)
         return r;
     }
@@ -1693,6 +1803,10 @@ gen(Src& s, int size)
     }
   if (s.chance(1, 2))
     c["twod"] = { { "seg", int(s.range(0, 11)) }, { "neg_seg", s.chance(1, 4) }, { "ax", int(s.range(0, 11)) }, { "unit", int(s.range(0, 3)) }, { "seed", s.seed64() } };
+  // conversions and apply_* also on data with negative values and exact zeros (second pass of check_conversion)
+  c["signed_data"] = s.chance(1, 3) ? 1 : 0;
+  // efficiencies exactly 0 for one or two detectors (apply only)
+  c["dead_eff"] = s.chance(1, 3) ? int(s.range(1, 2)) : 0;
   return c;
 }
 
@@ -1781,6 +1895,8 @@ fixed_cases(int tier)
       c["reuse"] = { { "max_delta", 3 }, { "tang", 7 } }; // narrower fan before
       c["model"] = { { "kind", "wide" }, { "e_off", 6 }, { "e_ring", 1 }, { "e_det", 3 }, { "det_shape", 0 }, { "dead", 1 }, { "zero_frac", 0.05 }, { "extreme_factors", true } };
       c["twod"] = { { "seg", 1 }, { "neg_seg", false }, { "ax", 1 }, { "unit", 0 }, { "seed", 31005 } };
+      c["signed_data"] = 1;
+      c["dead_eff"] = 2;
       v.push_back(c);
     }
     {
@@ -1815,6 +1931,8 @@ fixed_cases(int tier)
       json c = base(j, 24, 2, 11, 34001);
       c["reuse"] = { { "scanner", gen_sc(16, 2, 2, 2, 1, 1) }, { "max_delta", 1 }, { "tang", 9 } }; // another scanner before
       c["twod"] = { { "seg", 1 }, { "neg_seg", false }, { "ax", 0 }, { "unit", 0 }, { "seed", 34005 } };
+      c["signed_data"] = 1;
+      c["dead_eff"] = 2;
       v.push_back(c);
     }
     {
